@@ -110,6 +110,7 @@ func (p c01) Run(c *fw.Ctx, idx int) fw.Result {
 		if k >= opsPerCase {
 			// directed operations run through the same oracles (see directedIfaceRelDocs)
 			res.Count("directed_operations", 1)
+			res.Count("directed_operations_"+directed[k-opsPerCase].Ops[0].Name, 1)
 		}
 		op := gen.DefaultOpProfile(r)
 		op.MaxDepth = 2 + r.IntN(3)
@@ -196,6 +197,10 @@ func (p c01) Run(c *fw.Ctx, idx int) fw.Result {
 			}
 		}
 		res.Count("responses_compared", 1)
+		if k := duplicateKey(got.Raw); k != "" {
+			// a JSON object with the same key twice has no single value (readers differ in which one wins)
+			res.Violate("duplicate-response-key", "the gateway's response contains an object with the key "+k+" twice", match, full(map[string]any{"gateway_response": truncate(got.Raw, 3000)}))
+		}
 		wantCanon := ref.Canon(anyOf(want))
 		gotCanon := ref.Canon(got.Data)
 		if !got.HasData {
@@ -414,6 +419,35 @@ func directedIfaceRelDocs(s *gen.Schema) []*gen.Doc {
 				docs = append(docs, &gen.Doc{Ops: []*gen.Op{{Kind: "query", Name: "D4", Sel: roots}}})
 			}
 		}
+		// (f) below the interface Node: `... on Owned`, `... on Tagged`, `... on T` (three conditions that apply to T)
+		if ow, tg := s.Type("Owned"), s.Type("Tagged"); ow != nil && tg != nil && s.Overlap(t.Name, "Owned") && s.Overlap(t.Name, "Tagged") {
+			var roots []*gen.Sel
+			for _, rf := range []string{"nodes", "someNode"} {
+				if def := q.Field(rf); def != nil {
+					roots = append(roots, &gen.Sel{Field: &gen.FieldSel{Name: rf, Def: def, Parent: s.Query, Sel: []*gen.Sel{
+						{Field: &gen.FieldSel{Name: "__typename", Parent: "Node"}},
+						{Inline: &gen.InlineFrag{On: "Owned", Parent: "Node", Sel: []*gen.Sel{part(0, "Owned", ow.Field("relOwner"))}}},
+						{Inline: &gen.InlineFrag{On: "Tagged", Parent: "Node", Sel: []*gen.Sel{part(1, "Tagged", tg.Field("relOwner"))}}},
+						{Inline: &gen.InlineFrag{On: t.Name, Parent: "Node", Sel: []*gen.Sel{part(2, t.Name, t.Field("relOwner"))}}},
+					}}})
+				}
+			}
+			if len(roots) > 0 {
+				docs = append(docs, &gen.Doc{Ops: []*gen.Op{{Kind: "query", Name: "D6", Sel: roots}}})
+			}
+		}
+		// (e) below a union-typed parent all three are real type conditions: `... on Node`, `... on Owned`, `... on T`
+		if ow, sr := s.Type("Owned"), s.Type("SearchResult"); ow != nil && sr != nil && s.Overlap(t.Name, "Owned") && s.Overlap(t.Name, "SearchResult") {
+			if def := q.Field("search"); def != nil {
+				root := &gen.Sel{Field: &gen.FieldSel{Name: "search", Def: def, Parent: s.Query, Sel: []*gen.Sel{
+					{Field: &gen.FieldSel{Name: "__typename", Parent: "SearchResult"}},
+					{Inline: &gen.InlineFrag{On: "Node", Parent: "SearchResult", Sel: []*gen.Sel{part(0, "Node", node.Field("relOwner"))}}},
+					{Inline: &gen.InlineFrag{On: "Owned", Parent: "SearchResult", Sel: []*gen.Sel{part(1, "Owned", ow.Field("relOwner"))}}},
+					{Inline: &gen.InlineFrag{On: t.Name, Parent: "SearchResult", Sel: []*gen.Sel{part(2, t.Name, t.Field("relOwner"))}}},
+				}}}
+				docs = append(docs, &gen.Doc{Ops: []*gen.Op{{Kind: "query", Name: "D5", Sel: []*gen.Sel{root}}}})
+			}
+		}
 		var roots []*gen.Sel
 		for _, rf := range []string{"nodes", "someNode"} {
 			def := q.Field(rf)
@@ -431,4 +465,59 @@ func directedIfaceRelDocs(s *gen.Schema) []*gen.Doc {
 		}
 	}
 	return docs
+}
+
+// duplicateKey returns a key that occurs twice in one object of the JSON text ("" = none / not JSON).
+func duplicateKey(raw string) string {
+	dec := json.NewDecoder(strings.NewReader(raw))
+	dec.UseNumber()
+	type frame struct {
+		obj  bool
+		keys map[string]bool
+		key  bool // next token in an object is a key
+	}
+	var st []*frame
+	for {
+		tok, err := dec.Token()
+		if err != nil {
+			return ""
+		}
+		top := func() *frame {
+			if len(st) == 0 {
+				return nil
+			}
+			return st[len(st)-1]
+		}
+		switch t := tok.(type) {
+		case json.Delim:
+			switch t {
+			case '{':
+				if f := top(); f != nil && f.obj {
+					f.key = true
+				}
+				st = append(st, &frame{obj: true, keys: map[string]bool{}, key: true})
+			case '[':
+				if f := top(); f != nil && f.obj {
+					f.key = true
+				}
+				st = append(st, &frame{})
+			case '}', ']':
+				st = st[:len(st)-1]
+			}
+		default:
+			f := top()
+			if f != nil && f.obj {
+				if f.key {
+					k, _ := tok.(string)
+					if f.keys[k] {
+						return k
+					}
+					f.keys[k] = true
+					f.key = false
+				} else {
+					f.key = true
+				}
+			}
+		}
+	}
 }
